@@ -333,8 +333,10 @@ def run(ctx):
     ctx.corr["routes"] = routes.strip().count(";") + 1 if routes.strip() else 0
     # corpus first: committed requests with the answer the real server gave when they were recorded; the model
     # (over the table regenerated now) must still give it and the property must hold on it
-    cp = os.path.join(ROOT, "corpus", "C17", "gate_regressions.ops")
-    if os.path.exists(cp) and not ctx.replay_in:
+    for cp in [os.path.join(ROOT, "corpus", "C17", "gate_regressions.ops"),
+               os.path.join(ROOT, "corpus", "C17", "prog_regressions.ops")]:
+        if not os.path.exists(cp) or ctx.replay_in:
+            continue
         cops = open(cp).read().splitlines()
         cexp = open(cp[:-4] + ".expect").read().splitlines()
         rc, mout = ctx.driver("e7", stdin_path=cp)
@@ -344,8 +346,8 @@ def run(ctx):
                 ctx.broken_ties.append("corpus line violates the property: " + o[:80])
             if want != got:
                 ctx.log("corpus regression: `%s`\n  recorded=%s\n     model=%s" % (o[:300], want, got))
-                corr_broken.append("corpus C17/gate_regressions line")
-        ctx.corr["corpus_lines"] = len(cops)
+                corr_broken.append("corpus C17/%s line" % os.path.basename(cp))
+        ctx.corr["corpus_lines"] = ctx.corr.get("corpus_lines", 0) + len(cops)
     binp = ctx.go_test_binary("nsqadmin", ["e7/gate_test.go", "e7/prog_test.go"], "e7gate")
     if not binp:
         ctx.broken_ties.append("harness e7/gate_test.go does not compile against the current tree")
@@ -369,6 +371,10 @@ def run(ctx):
                     ctx.corr.setdefault("distribution", []).append(l)
             ops = open(opsp).read().splitlines()
             impl = open(implp).read().splitlines()
+            if os.environ.get("VERIF_KEEP_STREAMS"):   # for refreshing corpus/C17/*.ops by hand
+                import shutil
+                shutil.copy(opsp, os.environ["VERIF_KEEP_STREAMS"])
+                shutil.copy(implp, os.environ["VERIF_KEEP_STREAMS"])
             rc, mout = ctx.driver("e7", stdin_path=opsp)
             model = mout.splitlines()
             if ctx.replay_in:
